@@ -79,6 +79,10 @@ func (r *Rig) DialTLS() (*Peer, error) {
 // Finish ends the case: Shutdown (joins connection handlers), bounded by the watchdog.
 // It returns false when the watchdog expired (inconclusive).
 func (r *Rig) Finish() bool {
+	// Serve must have registered its listener (it does so before its first Accept), otherwise
+	// Shutdown would not close it and Serve would never return.
+	r.L.WaitAccepting()
+	r.L.WaitDrained()
 	ctx, cancel := context.WithTimeout(context.Background(), Watchdog)
 	defer cancel()
 	err := r.Srv.Shutdown(ctx)
@@ -109,16 +113,16 @@ func (r *Rig) WaitServe() (error, bool) {
 
 // Peer is the raw client side of one connection.
 type Peer struct {
-	Raw    *memconn.Conn
-	SrvEnd *memconn.Conn
-	TLS    *tls.Conn
-	rw     io.ReadWriter
-	Log    *rec.Log
-	P      Parser
-	taken  int // replies already handed out
+	Raw     *memconn.Conn
+	SrvEnd  *memconn.Conn
+	TLS     *tls.Conn
+	rw      io.ReadWriter
+	Log     *rec.Log
+	P       Parser
+	taken   int // replies already handed out
 	SendErr error
 	ReadErr error
-	rdbuf  [8192]byte
+	rdbuf   [8192]byte
 }
 
 // Send writes b as exactly one segment (one TLS record when inside TLS).
